@@ -52,10 +52,11 @@ type Run struct {
 	Extra       map[string]interface{}
 	Assumptions []string
 
-	nontrivial map[string]struct{}
-	outcomes   map[string]int64
-	samples    []interface{}
-	maxSamples int
+	nontrivial       map[string]struct{}
+	nontrivialCapped bool
+	outcomes         map[string]int64
+	samples          []interface{}
+	maxSamples       int
 
 	viol      map[string]*violation
 	violOrder []string
@@ -152,11 +153,19 @@ func (r *Run) Reject(n int64) {
 }
 
 // Nontrivial records a distinct non-trivial case by key.
+// nontrivialCap bounds the memory of the distinct-non-trivial set (about 60 bytes per entry).
+const nontrivialCap = 3_000_000
+
 func (r *Run) Nontrivial(key string) {
 	h := sha1.Sum([]byte(key))
 	k := string(h[:8])
 	r.mu.Lock()
-	r.nontrivial[k] = struct{}{}
+	// memory bound: beyond the cap the set stops growing and the reported number is a lower bound
+	if len(r.nontrivial) < nontrivialCap {
+		r.nontrivial[k] = struct{}{}
+	} else if _, ok := r.nontrivial[k]; !ok {
+		r.nontrivialCapped = true
+	}
 	r.mu.Unlock()
 }
 
@@ -297,6 +306,9 @@ func (r *Run) Finish() int {
 	}
 	cov["evaluations"] = r.Evaluations
 	cov["distinct_nontrivial"] = len(r.nontrivial)
+	if r.nontrivialCapped || len(r.nontrivial) >= nontrivialCap {
+		cov["distinct_nontrivial_is_lower_bound"] = fmt.Sprintf("the set of distinct non-trivial cases is capped at %d entries per process to bound memory", nontrivialCap)
+	}
 	if r.States > 0 || r.Level == "model_checking" {
 		cov["states"] = r.States
 		cov["transitions"] = r.Transitions
